@@ -864,9 +864,13 @@ func (m *StateMachine) handleViewUpdate(
 	if v.JumpAheadRoundView != nil {
 		// If the state machine was slow to read,
 		// we may have received an update with a VRV and a jump ahead signal.
-		// If it was necessary to jump ahead,
-		// the VRV value would not have advanced the round,
-		// so the call here should be safe.
+		// Usually, if it was necessary to jump ahead,
+		// the VRV value would not have advanced the round.
+		// But the VRV may itself have ended the round (a nil commit),
+		// in which case we are already in the round the mirror wanted us to jump to.
+		if j := v.JumpAheadRoundView; j.Height == rlc.H && j.Round <= rlc.R {
+			return
+		}
 		m.handleJumpAhead(ctx, rlc, *v.JumpAheadRoundView)
 	}
 }
